@@ -1199,6 +1199,7 @@ func repsStream(r *Run) {
 	}
 	if r.Shard == 0 {
 		repsNestedDropFamily(r)
+		repsKindedDropFamily(r)
 	}
 	n := 5000
 	if r.Tier == "thorough" {
